@@ -659,6 +659,9 @@ def area_required(V, mode):
         need = {"none": n, "nearest": (n + 2) / 2, "transpose": (n + 1) / 2}[mode]  # ceil((n+1)/2), ceil(n/2)
         cl.append(("%s reserved cover the window's input %s (%s upscaling)" % (name, name, mode), L(got) >= need))
         cl.append(("%s reserved are at most one above it" % name, L(got) <= need + 1))
+    # the rational model of the float division records side conditions in a module-level list: they belong to THIS instance and must be consumed
+    # here (left behind, they would be attributed to whichever instance the worker process runs next)
+    cl += [("float division exact", o) for o in rat.exactness_obligations()]
     return cl
 
 
